@@ -37,6 +37,7 @@ CONSTANTS Splits,       \* set of split names (strings)
           UseRef,       \* histories may pass one mutable metadata object ("REF") and mutate it between writes
           Protocol,     \* "good" | "inplace" (metadata rewritten in place) | "list_first" (shard listed before it
                         \* is written): the two deviations only exist to show that C06 can fail (non-vacuity)
+          CheckChildren, \* FALSE: the integrity check does not recurse into child lists (only to show C05 can fail)
           NoMkdir,      \* TRUE: directory creation is not modelled as an effect (trace validation mode)
           CrashOn, ReaderOn
 
@@ -419,7 +420,7 @@ CheckList(fs, lp, sum, fuel) ==           \* _check_shard_list_info
     /\ Has(fs, ListPath(lp))
     /\ Digest(fs[ListPath(lp)]) = sum
     /\ IsList(fs[ListPath(lp)])
-    /\ \A i \in 1..Len(fs[ListPath(lp)].children) :
+    /\ CheckChildren => \A i \in 1..Len(fs[ListPath(lp)].children) :
           CheckList(fs, fs[ListPath(lp)].children[i].dir, fs[ListPath(lp)].children[i].sum, fuel - 1)
 Check(tbl, fs) ==
     /\ \A s \in DOMAIN tbl : CheckList(fs, <<s>>, tbl[s].sum, 6)
